@@ -1,3 +1,4 @@
+import JominiModel.Proofs.BinSkipFaults
 import JominiModel.Proofs.BinDeCutDoc
 import JominiModel.Proofs.BinReader
 import JominiModel.Proofs.TextFault
@@ -7,14 +8,24 @@ import JominiModel.Proofs.TextSkip
 /-
 C20 — Underlying I/O failures surface as errors, never as silently wrong results.
 
-Obligations: every `C20_…` theorem of the files listed in tools/meta/C20.json plus the
-restatements below.  Proved so far: the binary streaming reader (`C20_bin_reader`: for every
-schedule with transient and persistent faults and every number of calls, the tokens returned are a
-prefix of the lexer's tokens, a clean end / eof / invalidRgb is only ever the lexer's own outcome
-after all tokens, BufferFull / ub / fuel never occur, position ≤ delivered) and `next_dead` (after
-a persistent fault no clean end is ever reported).  The text reader and the reader-based
-deserializers are decided by correspondence (`tstream`, `tretry`) and the fault oracles of
-harness/src/props/c20.rs only.
+Obligations: every `C20_…` theorem of the files listed in tools/meta/C20.json plus the restatements below.
+
+* Binary streaming reader (Proofs/BinReader.lean): `C20_bin_reader` — for every schedule with transient and
+  persistent faults and every number of calls, the tokens returned are a prefix of the lexer's tokens, a clean end /
+  eof / invalidRgb is only ever the lexer's own outcome after all tokens, BufferFull / ub / fuel never occur,
+  position ≤ delivered; `next_dead` — after a persistent fault no clean end is ever reported.
+* Binary `skip_container` and `read_bytes` under faults (Proofs/BinSkipFaults.lean): `C20_bin_skip_container`,
+  `_after_calls`, `C20_bin_read_bytes_then_skip`; the recorded retry defect on the model:
+  `C20_known_bin_skip_retry_depth`.
+* Text reader (Proofs/TextFault.lean, TextSkip.lean): `C20_text_reader`, `C20_text_skip_container`,
+  `C20_text_persistent_fault_errors`, `C20_text_doomed_call`; the recorded retry defect:
+  `C20_known_fault_retry_in_quoted`.
+* Deserializers: `C20_text_de` (Ok despite a broken stream = the fault-free value), `C20_bin_de_fault`,
+  `C20_bin_de_fault_unread` (the binary sequential deserializers never return Ok on a failing token source).
+
+Decided on the real code only: the io::ErrorKind a fault carries (Interrupted / WouldBlock / UnexpectedEof / TimedOut
+injected at every read call), faults at every 32 KiB refill of large documents (x-scale), conversion of reader
+errors into the crate's Error kind (a fault must reach the caller as an I/O error by kind).
 -/
 namespace Jomini.Props.C20
 open Jomini
